@@ -168,6 +168,22 @@ fn c17_salted_assertions() -> R {
         ensure!(bytes(&again) == bytes(&r), "unsalted add is not deterministic", "");
     }
     if let Err(m) = well_formed(&r) { return rt::viol("envelope with salted assertion not canonical", m); }
+    // the optional lookup forms find the salted assertion too
+    if had_matches == 0 {
+        op("optional_object_for_predicate (salted assertion)");
+        let got = must!(r.optional_object_for_predicate(p.clone()), "optional lookup failed");
+        ensure!(got.as_ref().map(|x| dg(x)) == Some(dg(&Envelope::new(o.clone()))), "the salted assertion is not found by its predicate through the optional lookup", "{:?}", got.is_some());
+        ensure!(must!(r.extract_optional_object_for_predicate::<String>(p.clone()), "optional extraction failed") == Some(o.clone()), "optional extraction does not return the salted assertion's object", "");
+        ensure!(must!(r.extract_object_for_predicate_with_default::<String>(p.clone(), "dflt".into()), "extraction with default failed") == o, "extraction with default returns the default although the assertion is present", "");
+    }
+    // an assertion that already carries assertions (e.g. one fetched from another envelope) can be passed to the salted forms
+    op("add_assertion_envelope_salted (assertion that carries assertions)");
+    let carried = crate::must_some!(r.assertions_with_predicate(p.clone()).into_iter().next(), "assertion not found");
+    let target = Envelope::new(leaf_text(90));
+    let moved = must!(target.add_assertion_envelope_salted(carried.clone(), false), "the salted form refused an assertion that carries assertions");
+    ensure!(moved.assertions().len() == 1 && dg(&moved.assertions()[0]) == dg(&carried), "the assertion was not carried over unchanged", "");
+    let moved2 = must!(target.add_optional_assertion_envelope_salted(Some(carried.clone()), true), "the salted form refused an assertion that carries assertions");
+    ensure!(moved2.assertions().len() == 1 && moved2.assertions_with_predicate(p.clone()).len() == 1, "the assertion re-salted is not found by its predicate", "");
     Ok(())
 }
 
@@ -279,6 +295,19 @@ fn c18_request() -> R {
     if !note.is_empty() || di == 0 { rq = rq.with_note(note); }
     if let Some(d) = dates(di) { rq = rq.with_date(&d); }
     rt::note(format!("request function {} note {:?} date {}", fs[fi].0, note, di));
+    {
+        // the builder calls commute: metadata first, parameters (plain and optional forms) afterwards
+        let mut alt = Request::new(fs[fi].1.clone(), arid(1));
+        if !note.is_empty() || di == 0 { alt = alt.with_note(note); }
+        if let Some(d) = dates(di) { alt = alt.with_date(&d); }
+        let ps = parameters();
+        for a in body.expression_envelope().assertions() {
+            let pi = (0..ps.len()).find(|i| a.as_predicate().map(|x| dg(&x)) == Some(dg(&Envelope::new(ps[*i].1.clone())))).unwrap();
+            alt = alt.with_optional_parameter(ps[pi].1.clone(), a.as_object());
+        }
+        alt = alt.with_optional_parameter(Parameter::new_named("absent"), None::<u8>);
+        ensure!(alt == rq, "building a request in another order gives another request", "note {:?} date {:?} vs note {:?} date {:?}", alt.note(), alt.date(), rq.note(), rq.date());
+    }
     op("Request -> Envelope");
     let env: Envelope = rq.clone().into();
     let sub = crate::must_some!(env.subject().as_leaf(), "request subject is not a leaf");
@@ -365,6 +394,7 @@ fn c18_response() -> R {
     let the = env.assertions()[0].clone();
     let bads = vec![
         ("both result and error", if has_result { env.add_assertion(known_values::ERROR, "e") } else { env.add_assertion(known_values::RESULT, "r") }),
+        ("both result and error, the extra one carrying an assertion", if has_result { env.add_assertion_envelope(Envelope::new_assertion(known_values::ERROR, "e").add_assertion("k", "v")).unwrap() } else { env.add_assertion_envelope(Envelope::new_assertion(known_values::RESULT, "r").add_assertion("k", "v")).unwrap() }),
         ("neither result nor error", env.remove_assertion(the.clone()).add_assertion("other", 1)),
         ("bare subject", env.subject()),
         ("two results", env.remove_assertion(the.clone()).add_assertion(known_values::RESULT, 1).add_assertion(known_values::RESULT, 2)),
@@ -469,6 +499,16 @@ fn c19_attachments() -> R {
     }
     // other assertions and the subject are untouched; Attachments container agrees
     ensure!(bytes(&e.subject()) == bytes(&base.subject()), "add_attachment changed the subject", "");
+    // a container holding one attachment the envelope already carries: merging it back changes nothing
+    {
+        let (p0, v0, c0) = distinct[0];
+        let mut one = Attachments::new();
+        one.add(payloads(p0), vendors[v0], confs[c0]);
+        let merged = one.add_to_envelope(e.clone());
+        ensure!(bytes(&merged) == bytes(&e), "merging a container whose attachment is already present changed the envelope", "");
+        let onto_base = one.add_to_envelope(base.clone());
+        ensure!(must!(onto_base.attachments(), "attachments() failed").len() == 1, "container attachment not added", "");
+    }
     let cont = must!(Attachments::try_from_envelope(&e), "Attachments::try_from_envelope failed");
     ensure!(!cont.is_empty(), "Attachments container empty", "");
     for (p, v, c) in &distinct { let w = Envelope::new_attachment(payloads(*p), vendors[*v], confs[*c]); ensure!(cont.get(&w.digest()).is_some(), "Attachments container lacks an attachment", ""); }
@@ -489,6 +529,8 @@ fn c19_malformed() -> R {
         ("payload not wrapped", Envelope::new_assertion(known_values::ATTACHMENT, Envelope::new("payload").add_assertion(known_values::VENDOR, "com.example"))),
         ("extra assertion on the object", Envelope::new_assertion(known_values::ATTACHMENT, obj.add_assertion("extra", "field"))),
         ("object is a bare leaf", Envelope::new_assertion(known_values::ATTACHMENT, "junk")),
+        ("vendor value carries an assertion of its own", Envelope::new_assertion(known_values::ATTACHMENT, obj.remove_assertion(vendor_a.clone()).add_assertion(known_values::VENDOR, Envelope::new("com.example").add_assertion("note", "x")))),
+        ("conformsTo value carries an assertion of its own", Envelope::new_assertion(known_values::ATTACHMENT, obj.remove_assertion(conf_a.clone()).add_assertion(known_values::CONFORMS_TO, Envelope::new("https://example.com/v1").add_assertion("note", "x")))),
     ];
     let (bn, bad) = &bads[choice(bads.len())];
     rt::note(*bn);
@@ -570,7 +612,7 @@ pub fn prop_c18() -> Prop {
                 bounds: "4 functions x 0..1 parameters (3 values) x note absent / empty / non-empty x date absent / integral / fractional / negative x expected function and 6 malformed variants on the canonical request (body removed / doubled / not an expression, subject retagged / untagged, note not text) x every digest order",
                 api: &["Request::new_with_body", "with_note", "with_date", "From<Request> for Envelope", "TryFrom<Envelope> for Request", "TryFrom<(Envelope, Option<&Function>)> for Request"] },
             Scenario { name: "response", f: c18_response, thorough_only: false,
-                bounds: "7 response variants (ok, result, failure default / with error, early failure default / with error, null result) x 7 value envelopes x 8 malformed variants (both, neither, bare subject, two results, retagged, untagged, wrong known-value subject, success with 'Unknown' id) x every digest order",
+                bounds: "7 response variants (ok, result, failure default / with error, early failure default / with error, null result) x 7 value envelopes x 9 malformed variants (both, both with the extra one decorated, neither, bare subject, two results, retagged, untagged, wrong known-value subject, success with 'Unknown' id) x every digest order",
                 api: &["Response::new_success", "new_failure", "new_early_failure", "with_result", "with_error", "From<Response> for Envelope", "TryFrom<Envelope> for Response"] },
             Scenario { name: "event", f: c18_event, thorough_only: false,
                 bounds: "5 contents (text, empty text, node envelope, wrapped envelope, node with a wrapped subject) x note absent / non-empty x 4 dates x 4 malformed variants x every digest order",
@@ -588,7 +630,7 @@ pub fn prop_c19() -> Prop {
                 bounds: "2 host envelopes x every list of 1..3 attachments (a single one over 4 payloads, several over 3 fixed payloads (text, node, wrapped, known value) x 2 vendors x conformsTo {none, 2 values} x every filter (vendor none / 2 values) x (conformsTo none / 2 values / unknown) x every digest order",
                 api: &["add_attachment", "new_attachment", "attachments", "attachments_with_vendor_and_conforms_to", "attachment_with_vendor_and_conforms_to", "attachment_payload", "attachment_vendor", "attachment_conforms_to", "validate_attachment", "Attachments::try_from_envelope"] },
             Scenario { name: "malformed", f: c19_malformed, thorough_only: false,
-                bounds: "8 malformed attachment assertions (vendor removed / duplicated / not text, conformsTo duplicated / not text, payload not wrapped, extra assertion, bare leaf object), alone or next to a well-formed one x every digest order",
+                bounds: "10 malformed attachment assertions (vendor / conformsTo value carrying an assertion, vendor removed / duplicated / not text, conformsTo duplicated / not text, payload not wrapped, extra assertion, bare leaf object), alone or next to a well-formed one x every digest order",
                 api: &["validate_attachment", "attachments"] },
             Scenario { name: "types", f: c19_types, thorough_only: false,
                 bounds: "every set of <=3 types out of 8 (3 known values, text, text equal to a known value's name, integer, annotated envelope, wrapped) on 2 hosts x has_type / has_type_envelope / check_type(_envelope) for every pool member x get_type x every digest order",
